@@ -36,7 +36,7 @@ package agent
 //@ requires is(k, string) && is(v, bpv7.EndpointID)
 //@ ensures result
 //@ ensures v.(bpv7.EndpointID) == msg.Bundle.PrimaryBlock.Destination ==> len(uuids) == old(len(uuids)) + 1 && uuids[len(uuids) - 1] == k.(string)
-//@ ensures v.(bpv7.EndpointID) != msg.Bundle.PrimaryBlock.Destination ==> len(uuids) == old(len(uuids))
+//@ ensures v.(bpv7.EndpointID) != msg.Bundle.PrimaryBlock.Destination ==> len(uuids) == old(len(uuids)) @thorough
 
 // govc:func (*RestAgent).Endpoints$1 property C07
 //@ requires is(v, bpv7.EndpointID)
